@@ -31,23 +31,24 @@ import (
 // Case is one replayable input: which handler, the frames the peer sends and,
 // for structured cases, the message they were marshalled from.
 type Case struct {
-	H     string          `json:"h"`               // handler id, e.g. "handshake.out"
-	Kind  string          `json:"kind"`            // "msg" (structured) | "raw"
-	Scen  string          `json:"scen,omitempty"`  // node state selector
-	Msg   json.RawMessage `json:"msg,omitempty"`   // handler-specific structured message
-	Raw   []string        `json:"raw,omitempty"`   // raw: hex chunks written to the stream, then closed
-	Class string          `json:"class"`           // class of input (part of the violation signature)
+	H     string          `json:"h"`              // handler id, e.g. "handshake.out"
+	Kind  string          `json:"kind"`           // "msg" (structured) | "raw"
+	Scen  string          `json:"scen,omitempty"` // node state selector
+	Msg   json.RawMessage `json:"msg,omitempty"`  // handler-specific structured message
+	Raw   []string        `json:"raw,omitempty"`  // raw: hex chunks written to the stream, then closed
+	Class string          `json:"class"`          // class of input (part of the violation signature)
 }
 
 // Obs is what the child observed.
 type Obs struct {
-	Panic bool            `json:"panic"`
-	Where string          `json:"where,omitempty"` // handler | client | goroutine
-	PMsg  string          `json:"pmsg,omitempty"`  // panic text (diagnostics only; never compared)
-	Hang  bool            `json:"hang,omitempty"`
-	Err   int             `json:"err"`             // error class (handler specific small enum; 0 = nil)
-	Orc   map[string]bool `json:"orc,omitempty"`   // results of library parsers on the same bytes (inputs of the model)
-	Aux   map[string]int  `json:"aux,omitempty"`   // further small observables
+	Panic bool                `json:"panic"`
+	Where string              `json:"where,omitempty"` // handler | client | goroutine
+	PMsg  string              `json:"pmsg,omitempty"`  // panic text (diagnostics only; never compared)
+	Hang  bool                `json:"hang,omitempty"`
+	Err   int                 `json:"err"`             // error class (handler specific small enum; 0 = nil)
+	Orc   map[string]bool     `json:"orc,omitempty"`   // results of library parsers on the same bytes (inputs of the model)
+	Aux   map[string]int      `json:"aux,omitempty"`   // further small observables
+	Lists map[string][]string `json:"lists,omitempty"` // node state read by the front (hex), created by earlier messages
 }
 
 // handlerDef ties a handler id to its runner (child side) and its Coq emitter.
@@ -85,12 +86,12 @@ func hexes(bs ...[]byte) []string {
 func rawStreams(r *hx.Rand, valid []byte, n int) [][][]byte {
 	var out [][][]byte
 	out = append(out,
-		[][]byte{{}},                                        // empty stream
-		[][]byte{{0x00}},                                    // zero-length message
-		[][]byte{{0xff, 0xff, 0xff, 0xff, 0x0f}},            // length 4 GiB-1, nothing follows
-		[][]byte{{0x81, 0x80, 0x40}},                        // length 1 MiB + 1
+		[][]byte{{}},                             // empty stream
+		[][]byte{{0x00}},                         // zero-length message
+		[][]byte{{0xff, 0xff, 0xff, 0xff, 0x0f}}, // length 4 GiB-1, nothing follows
+		[][]byte{{0x81, 0x80, 0x40}},             // length 1 MiB + 1
 		[][]byte{{0xff, 0xff, 0xff, 0xff, 0xff, 0xff, 0xff, 0xff, 0xff, 0x7f}}, // uvarint overflow
-		[][]byte{{0x05, 0x0a}},                              // truncated body
+		[][]byte{{0x05, 0x0a}}, // truncated body
 	)
 	if len(valid) > 0 {
 		out = append(out, [][]byte{frame(valid)[:len(frame(valid))-1]}) // valid frame minus last byte
@@ -129,10 +130,10 @@ func rawStreams(r *hx.Rand, valid []byte, n int) [][][]byte {
 // ---------------------------------------------------------------- parent: running cases in children
 
 type childProc struct {
-	cmd   *exec.Cmd
-	in    io.WriteCloser
-	out   *bufio.Reader
-	errb  *bytes.Buffer
+	cmd  *exec.Cmd
+	in   io.WriteCloser
+	out  *bufio.Reader
+	errb *bytes.Buffer
 }
 
 func startChild() *childProc {
